@@ -24,9 +24,19 @@ func genC09(seed uint64, tier string) *Plan {
 	p.Cfg.CoalesceNanos = int64(time.Millisecond)
 	span := int64(PickOne(r, []time.Duration{6 * time.Second, 40 * time.Second, 3 * time.Minute}))
 	genDataset(r, p, u, SchemaOpts{MaxTables: 2, RetMin: 40 * time.Minute, RetMax: 3 * time.Hour}, 2, 40, span, 0.08, 0.08)
+	bulk := false
+	if t0 := &p.Tables[0]; r.Bool(0.1) && (len(t0.GroupBy) == 0 || strings.Contains(","+strings.Join(t0.GroupBy, ",")+",", ",da,")) {
+		// a result of more than a thousand rows: sorters may buffer in bounded
+		// memory, LIMIT/OFFSET must still slice the complete order
+		bulk = true
+		p.Ops = append(p.Ops, Op{K: "bulk", Dt: 1000, N: int64(r.Range(1100, 2600)), S: t0.Stream})
+	}
 	nq := r.Range(2, 6)
 	for i := 0; i < nq; i++ {
 		t := &p.Tables[r.Intn(len(p.Tables))]
+		if bulk {
+			t = &p.Tables[0]
+		}
 		o := QGenOpts{Group: true, Where: true, DataSpan: span}
 		base := genQuery(r, t, u, o)
 		// key list: 1-4 keys over fields, dims and _time in every position
@@ -53,6 +63,10 @@ func genC09(seed uint64, tier string) *Plan {
 		}
 		lim := int64(PickOne(r, []int{0, 1, 2, 3, 5, 8, 1000}))
 		off := int64(PickOne(r, []int{0, 0, 1, 2, 4, 50}))
+		if bulk {
+			lim = int64(PickOne(r, []int{1, 3, 8, 40}))
+			off = int64(PickOne(r, []int{0, 1, 25, 50, 1050}))
+		}
 		p.Ops = append(p.Ops, Op{K: "oq", Dt: PickOne(r, insDts), S: base.SQL(), Strs: ks, N: lim, N2: off, B: r.Bool(0.8)})
 	}
 	return p
@@ -163,6 +177,26 @@ func execC09(e *Env, p *Plan) error {
 			}
 		case "flush":
 			n.DB.FlushAll()
+		case "bulk":
+			now := time.Now()
+			before := e.ProcessedSnapshot(n)
+			for k := 0; k < int(op.N); k++ {
+				dims := map[string]interface{}{"da": fmt.Sprintf("k%05d", (k*7919)%100000), "db": k % 7, "dc": k%3 == 0}
+				vals := map[string]interface{}{"x": float64((k * 104729) % 1000), "y": float64(k % 11), "z": float64(k%5) + 0.5, "w": 1.0}
+				if err := n.DB.Insert(op.S, now.Add(-time.Duration(k%30)*time.Second), dims, vals); err != nil {
+					return err
+				}
+			}
+			// (only tables on that stream move; views and tables of other
+			// streams are not waited for)
+			for name := range before {
+				if t := p.table(name); t == nil || t.Stream != op.S {
+					delete(before, name)
+				}
+			}
+			waitTables(e, n, before, op.N)
+			e.Settle()
+			e.Count("probe.bulk-rows")
 		case "oq":
 			e.Settle()
 			var keys []OrderKey
@@ -182,6 +216,12 @@ func execC09(e *Env, p *Plan) error {
 			} else {
 				limSQL += fmt.Sprintf(" LIMIT %d", op.N)
 				plainLimSQL += fmt.Sprintf(" LIMIT %d", op.N)
+			}
+			if !op.B {
+				// disk-only queries: a timer flush between two of the four
+				// queries would legitimately change what is on disk
+				n.DB.FlushAll()
+				e.Sleep(time.Millisecond)
 			}
 			pu, po, pl, pp := n.Prepare(op.S, op.B), n.Prepare(orderSQL, op.B), n.Prepare(limSQL, op.B), n.Prepare(plainLimSQL, op.B)
 			U, O, L, PL := pu.Run(QOpts{}), po.Run(QOpts{}), pl.Run(QOpts{}), pp.Run(QOpts{})
@@ -314,4 +354,21 @@ func sameMultiset(a, b map[string]int) bool {
 		}
 	}
 	return true
+}
+
+// waitTables waits until the listed tables have processed count more points.
+func waitTables(e *Env, n *Node, before map[string]int64, count int64) {
+	for i := 0; i < 240; i++ {
+		done := true
+		for name, b := range before {
+			if processedPoints(n, name)-b < count {
+				done = false
+			}
+		}
+		if done {
+			return
+		}
+		e.Sleep(500 * time.Millisecond)
+	}
+	e.Count("probe.wait-processed-timeout")
 }
